@@ -111,7 +111,13 @@ def policy_oracle(entry):
     ref = srt[len(srt) // 2]
     worst = max((abs(a - ref) / (1 + abs(ref - qf[i])), i) for a, i in alphas)
     entry["alpha_spread"] = float(worst[0])
-    if worst[0] > ALPHA_TOL or ref <= max(qf) or len(alphas) < K:
+    # C10's "single alpha" oracle: the intervals q_i + (lambda32*pi_i/w_i)(1 +- 2^-21) have a common point above max q
+    r21 = Fraction(1, 2 ** 21)
+    d = [(lam32 * Fraction(pi[i]) / Fraction(w[i]), i) for i in range(K) if w[i] > 0]
+    a_lo = max(qf[i] + di * (1 - r21) for di, i in d)
+    a_hi = min(qf[i] + di * (1 + r21) for di, i in d)
+    single_alpha = a_lo <= a_hi and a_hi > max(qf)
+    if (not single_alpha and (worst[0] > ALPHA_TOL or ref <= max(qf))) or len(alphas) < K:
         probs.append({"clause": "the reported policy is lambda*pi_i/(alpha - q_i) for one alpha > max q, with q = minus the "
                                 "mean value of a visited child / the node's own evaluation for an unvisited one, "
                                 "lambda = C*sqrt(N)/(N+K)",
@@ -120,7 +126,30 @@ def policy_oracle(entry):
     s = sum(Fraction(x) for x in w)
     entry["sum_dev"] = float(abs(s - 1))
     if abs(s - 1) > SUM_GROSS:
-        probs.append({"clause": "the reported policy sums to 1 (gross deviation; the fine accuracy is C10)", "sum": float(s)})
+        # how close the sum is to 1 is the solver's business: exactly C10's statement, not more.  With res = 2 ulp32(alpha):
+        # f(a_hi + res) <= 1 + eps, and f(a_lo - res) >= 1 - eps unless a_lo - res <= max q (the root lies within the
+        # float resolution above the best q: "the unavoidable effect of its resolution"), eps = 1e-3 + (K+8) 2^-23
+        import numpy as np
+        amid = float((a_lo + a_hi) / 2) if single_alpha else float(ref)
+        res = 2 * Fraction(float(np.spacing(np.float32(abs(amid) if amid else 1e-30))))
+        eps = Fraction(1, 1000) + Fraction(K + 8, 2 ** 23)
+        lo_a, hi_a = (a_lo, a_hi) if single_alpha else (srt[0], srt[-1])
+
+        def f(a):
+            return sum(lam32 * Fraction(pi[i]) / (a - qf[i]) for i in range(K))
+        collapsed = lo_a - res <= max(qf)
+        entry["collapsed"] = bool(collapsed)
+        ok_hi = f(hi_a + res) <= 1 + eps
+        ok_lo = collapsed or f(lo_a - res) >= 1 - eps
+        if not (ok_hi and ok_lo):
+            probs.append({"clause": "the reported policy sums to 1 to the accuracy the solver guarantees (C10: f(alpha + res) <= "
+                                    "1 + eps, f(alpha - res) >= 1 - eps unless alpha - res <= max q)", "sum": float(s),
+                          "N": N, "K": K, "expected_q": q[:30], "prior": pi[:30], "reported": w[:30]})
+    try:        # what descend / select_root_move do with it
+        torch.multinomial(out, 1)
+    except RuntimeError as e:
+        probs.append({"clause": "torch.multinomial accepts the reported policy (a move can be sampled)", "error": str(e)[:120],
+                      "reported": w[:30]})
     call = entry["call"]
     if call is not None and call["pi_obj"] is not prior and not torch.equal(call["pi"], prior):
         probs.append({"clause": "the prior handed to the solver is the node's child priors"})
@@ -201,6 +230,8 @@ def examine(trace):
             st["calls_with_visited_and_unvisited_children"] += 1
         if entry.get("query"):
             st["queries_after_the_search"] += 1
+        if entry.get("collapsed"):
+            st["calls_in_the_bisection_collapse_regime"] += 1
         if pr and len(problems) < 4:
             for p in pr:
                 p["node_visits"] = entry["stats"]["N"] if entry["stats"] else None
@@ -242,10 +273,37 @@ def reuse_specs(rng, k, sizes=(3, 4)):
     return specs
 
 
+# positions with a road in one for the side to move (the winning move is what the scripted network is blind to)
+EXTREME_POS = ["1,1,x/2,2,x/x3 1 3", "1,1,1,x/2,2,2,x/x4/x4 1 4", "1,1,1,1,x/2,2,2,2,x/x5/x5/x5 1 5"]
+
+
+def extreme_specs(rng, quick):
+    """the bisection-collapse regime through the real code path: cutoff_prob = 1e-12, a network that gives the winning
+    move a prior of 1e-9 .. 1e-12 (uniform elsewhere) and values that make that child the best one (q = +1: visited and won,
+    or unvisited under a root evaluated +1) while the others sit at q = -1; several visit counts on one tree (the policy
+    is asked for during every descent, after every phase with C, 2C, C/2, and by select_root_move)"""
+    specs = []
+    tps_list = EXTREME_POS[:2] + [c08.swap_colours(EXTREME_POS[0])] + EXTREME_POS[2:] + [c08.swap_colours(EXTREME_POS[1])]
+    count = 9 if quick else 60
+    for j in range(count):
+        start = c08.tps_start(tps_list[j % len(tps_list)])
+        budgets = [(8, 30, 90), (12, 40, 120), (5, 25, 200 if not quick else 100)][j % 3]
+        if start["size"] == 5:
+            budgets = (6, 20, 45)
+        specs.append({"size": start["size"], "opening": [], "start": start,
+                      "eval": {"kind": "blind_win", "seed": rng.randrange(1 << 30), "len": "max", "dyadic": True,
+                               "tiny": [1e-9, 1e-10, 1e-12, 3e-11][j % 4], "root_value": [1.0, 0.5, 1.0, -0.5, 0.75][j % 5],      # never 0: see notes/C09.md (best q = 0)
+                               "root_ply": start["ply"]},
+                      "sampler": {"mode": ["uniform", "torch", "skew", "uniform"][j % 4], "seed": rng.randrange(1 << 30)},
+                      "noise": None, "C": [4.0, 0.5, 1.5, 8.0][j % 4], "cutoff": 1e-12,
+                      "phases": [{"path": [], "limit": b} for b in budgets], "tag": "extreme-policy"})
+    return specs
+
+
 def all_specs(run):
     v = dict(volumes(run))
     reuse = v.pop("reuse")
-    return c08.gen_specs(run, **v) + reuse_specs(run.rng, reuse)
+    return c08.gen_specs(run, **v) + reuse_specs(run.rng, reuse) + extreme_specs(run.rng, run.quick)
 
 
 def one_search(spec):
@@ -324,7 +382,12 @@ def run_get_move(start, mode, seed, budget):
     pos = takio.mk_pos(start)
     ev = c08.Evaluator({"kind": "uniform", "seed": seed, "len": "max", "dyadic": True, "cutoff": 1e-6}, start["size"])
     torch.manual_seed(seed)
-    if mode == "zero-simulations":
+    if mode == "extreme-policy":
+        ev = c08.Evaluator({"kind": "blind_win", "seed": seed, "len": "max", "dyadic": True, "cutoff": 1e-12, "tiny": 1e-10,
+                            "root_value": 1.0, "root_ply": start["ply"]}, start["size"])
+        cfg = mcts.Config(time_limit=0, simulation_limit=20 * budget, cutoff_prob=1e-12, C=0.5)
+        real_time = None
+    elif mode == "zero-simulations":
         cfg = mcts.Config(time_limit=1e-9, simulation_limit=0)
         clock = {"t": 1000.0}
 
@@ -352,17 +415,27 @@ def get_move_family(run):
     cs = core.Cases(ID, "getmove", c08.HEADER, GETMOVE_CTYPE, GETMOVE_CHECK, shard=40)
     dist, samples, n = Counter(), [], 0
     reps = 2 if run.quick else 12
-    for what, start in get_move_positions(rng, not run.quick):
+    positions = [(w, st, ("ordinary-budget", "zero-simulations")) for w, st in get_move_positions(rng, not run.quick)]
+    positions += [("road in one, the network blind to it (prior 1e-10, cutoff 1e-12)", c08.tps_start(t), ("extreme-policy",))
+                  for t in EXTREME_POS[:2] + [c08.swap_colours(EXTREME_POS[0])]]
+    for what, start, modes in positions:
         sn = c08.snap(takio.mk_pos(start))
         if c08.outcome(sn) is not None:
             continue
-        for mode in ("ordinary-budget", "zero-simulations"):
+        for mode in modes:
             for r in range(reps):
                 seed, budget = rng.randrange(1 << 30), rng.randint(2, 10)
                 kind, val = run_get_move(start, mode, seed, budget)
                 n += 1
                 if kind == "raised":
                     dist[f"{mode}:raised {val}"] += 1
+                    if mode == "extreme-policy":       # a search with a positive budget on a live position must return a move
+                        run.violation(f"get_move-{c08.code_chk(c08.snap_code(sn))}-{mode}",
+                                      {"clause": "the reported distribution is finite and non-negative / a move is returned: the real "
+                                                 "MCTS.get_move raised during a search with a positive simulation budget",
+                                       "raised": val, "what": what, "mode": mode, "seed": seed, "budget": budget, "start": start,
+                                       "position": c08.j_snap(sn), "config": {"cutoff_prob": 1e-12, "C": 0.5, "simulation_limit": 20 * budget},
+                                       "network": "uniform priors, 1e-10 on the winning move; value +1 everywhere"})
                     continue
                 dist[f"{mode}:returned a move"] += 1
                 m = val
@@ -480,7 +553,7 @@ def replay(run, rp):
         import tak
         kind, val = run_get_move(rp["start"], rp["mode"], rp["seed"], rp["budget"])
         if kind == "raised":
-            return {"violates": False, "get_move": "raised " + val + " (no move returned)"}
+            return {"violates": rp["mode"] == "extreme-policy", "get_move": "raised " + val + " (no move returned)"}
         try:
             c08.rebuild(c08.snap(takio.mk_pos(rp["start"]))).move(val)
             return {"violates": False, "get_move": takio.j_move(val), "accepted": True}
